@@ -281,6 +281,20 @@ func TestC13(t *testing.T) {
 			}
 		}
 	}
+	// document-level witnesses (parsed, never loaded)
+	for _, in := range c13DocCorpus {
+		for _, cfg := range configs {
+			c := c13DocCase{Input: in, Config: cfg}
+			r.Begin("doc", func() interface{} { return c })
+			v := c13DocEval(c)
+			r.End()
+			r.Case(true, fmt.Sprintf("doccorpus:%s\x00%v", in, cfg))
+			if v != "" {
+				r.Violation("doc", c, "%s", v)
+				break
+			}
+		}
+	}
 	// wide and deep members of the type-system grammar, three configurations each
 	for _, kind := range gen.WideSchemaKinds {
 		for _, n := range kit.PickInts([]int{1, 17, 129, 501, 1025}, gen.WideSizes) {
@@ -307,13 +321,6 @@ func TestC13(t *testing.T) {
 	}
 	r.Rapid("doc", kit.Pick(300, 10000), func(rt *rapid.T) {
 		st := gen.SchemaDocTree().Draw(rt, "doc")
-		for _, d := range append(append([]*ref.TypeDef{}, st.Doc.Defs...), st.Doc.Exts...) {
-			for _, f := range d.Fields {
-				if strings.HasPrefix(f.Name, "__") {
-					f.Name = "u" + f.Name
-				}
-			}
-		}
 		text := gen.JoinRandom(rt, gen.SchemaLexemes(st, gen.Rand(rt)), true)
 		if r.WantSample("doc") {
 			r.Sample("doc", text)
@@ -352,6 +359,13 @@ func TestC13(t *testing.T) {
 			}
 		}
 	})
+}
+
+// c13DocCorpus: documents that parse but would not load (reserved names), and other shapes only
+// the document level has.
+var c13DocCorpus = []string{
+	"type FooBar {\n  __id: ID\n}\n", `type __T { __a(__x: Int): __T } extend type __T { __b: Int }`, `interface I { __typename: String } input In { __f: Int = 1 } enum __E { __V }`,
+	`type Query { __schema: Int __type(name: String): Int a: Int }`, `directive @__d(__a: Int) on FIELD`, `extend schema { query: __Q }`,
 }
 
 var c13Corpus = []string{
